@@ -145,7 +145,7 @@ theorem lines4to9_ne_zero_sw (hG : G.WF) (hdl : ∀ e ∈ G.di, e.1 ≠ e.2) (hb
                 exact mapM_ok_mem _ _ _ hevs x hx
               obtain ⟨D, hD, hDx⟩ := hxD
               obtain ⟨pillow, _, _, hfrx, _, hnoself, _⟩ :=
-                frag_of_district hord hdo hG hdl hbl hfr.good hcg facts hsk hkeysnsi hevs D hD x hDx
+                frag_of_district hord hdo hG hdl hbl hfr.good hcg facts.toD (sKeys_nev facts hsk) hkeysnsi hevs D hD x hDx
               exact hrec _ _ x hfrx (violates_false_of_noSelf hfrx.keysIn hfrx.good.ok.names hnoself) hfx
       · split at h
         · cases h
